@@ -107,7 +107,7 @@ Theorem C02_rejects : forall a len sl,
    (length (shp a) < length sl)%nat \/
    exists j sz st en sp,
      nth_error (shp a) j = Some sz /\ nth_error sl j = Some (Some (st, en, sp)) /\
-     (en < st \/ st < 0 \/ sz <= st \/ (sp = 0 /\ 1 < en - st))).
+     (en < st \/ st < 0 \/ sz <= st \/ (sp = 0 /\ 1 < en - st) \/ sp < 0)).
 Proof. exact ap_S_rejects. Qed.
 Print Assumptions C02_rejects.
 
